@@ -36,6 +36,10 @@ BASE_FLAGS.append("-DC20_HAS_BF_MEMPTR_RV=%d" % _probe(
     "#include <etl/functional.hpp>\nstruct S { int d; long q(int) && { return 0; } long c(int) const&& { return 0; } };\n"
     "long use(S s) { auto g = etl::bind_front(&S::q, s); auto const h = etl::bind_front(&S::c, s); auto m = etl::bind_front(&S::d, s);\n"
     "  auto const n = etl::bind_front(&S::d, s); int v = etl::move(m)() + etl::move(n)(); return etl::move(g)(1) + etl::move(h)(2) + v; }\n"))
+BASE_FLAGS.append("-DC20_HAS_MFT_NARROW=%d" % _probe(
+    "#include <etl/tuple.hpp>\n#include <etl/utility.hpp>\nstruct A { int a; int b; int c; }; struct N { N(short, short) {} };\n"
+    "int use(long x) { auto a = etl::make_from_tuple<A>(etl::tuple<long, long>{x, x}); auto n = etl::make_from_tuple<N>(etl::tuple<int, int>{int(x), 2});\n"
+    "  (void)n; return a.a; }\n"))
 HARNESS_FLAGS = list(BASE_FLAGS)
 
 
@@ -180,35 +184,55 @@ def ifn_alphabet():
 TAIL = ["ifn op=call i=0 x=5", "ifn op=call i=1 x=6", "ifn op=bool i=0", "ifn op=eqnull i=1", "ifn op=nenull i=0"]
 
 
+# the named inplace_function objects of a history: class 0 = capacity 32 (objects 0..2), class 1 = capacity 16 (3..4),
+# class 2 = capacity 24 / alignment 8 (5); closure types ty = 2*sizeIndex + nontrivial, sizes 8, 12, 16, 24, 32
+IFN_OBJS = 6
+IFN_CLS = [0, 0, 0, 1, 1, 2]
+IFN_NTY = {0: 10, 1: 6, 2: 8}            # closure types that fit the capacity of the class
+
+
+def ifn_from_ok(i, j):
+    """object i can be constructed / assigned from object j: same specialisation, or capacity 32 from a smaller one"""
+    return IFN_CLS[i] == IFN_CLS[j] or IFN_CLS[i] == 0
+
+
+def ifn_from_line(rnd, assign, i, j):
+    r = rnd.random()
+    if r < 0.2:
+        return "ifn op=%s i=%d j=%d" % ("assign" if assign else "ctor_copy", i, j)
+    if r < 0.4:
+        return "ifn op=%s i=%d j=%d" % ("massign" if assign else "ctor_move", i, j)
+    return "ifn op=%s i=%d j=%d q=%d" % ("assign_from" if assign else "ctor_from", i, j, rnd.randrange(4))
+
+
 def random_history(rnd):
     lines = ["new"]
     for _ in range(rnd.randint(10, 40)):
         r = rnd.random()
-        i = rnd.randrange(4)
-        j = rnd.randrange(4)
-        small_ty = rnd.randrange(6)
-        ty = small_ty if i == 3 else rnd.randrange(10)
+        i = rnd.randrange(IFN_OBJS)
+        j = rnd.randrange(IFN_OBJS)
+        ty = rnd.randrange(IFN_NTY[IFN_CLS[i]])
         ident = rnd.randint(1, 9)
         if r < 0.14:
             lines.append("ifn op=ctor_fn i=%d ty=%d id=%d" % (i, ty, ident))
         elif r < 0.18:
             lines.append("ifn op=%s i=%d" % (rnd.choice(["ctor_empty", "ctor_null"]), i))
         elif r < 0.30:
-            i = rnd.randrange(3)
-            while j == i:
-                j = rnd.randrange(4)
-            lines.append("ifn op=%s i=%d j=%d" % (rnd.choice(["ctor_copy", "ctor_move"]), i, j))
+            while j == i or not ifn_from_ok(i, j):
+                i = rnd.randrange(IFN_OBJS)
+                j = rnd.randrange(IFN_OBJS)
+            lines.append(ifn_from_line(rnd, False, i, j))
         elif r < 0.46:
-            if i == 3:
-                j = 3
-            lines.append("ifn op=%s i=%d j=%d" % (rnd.choice(["assign", "massign"]), i, j))
+            while not ifn_from_ok(i, j):
+                j = rnd.randrange(IFN_OBJS)
+            lines.append(ifn_from_line(rnd, True, i, j))
         elif r < 0.52:
             lines.append("ifn op=assign_fn i=%d ty=%d id=%d" % (i, ty, ident))
         elif r < 0.56:
             lines.append("ifn op=assign_null i=%d" % i)
         elif r < 0.70:
-            if i == 3 or j == 3:
-                i = j = 3 if rnd.random() < 0.5 else rnd.randrange(3)
+            while IFN_CLS[i] != IFN_CLS[j]:
+                j = rnd.randrange(IFN_OBJS)
             if rnd.random() < 0.25:
                 j = i
             lines.append("ifn op=%s i=%d j=%d" % (rnd.choice(["swap", "fswap"]), i, j))
@@ -216,9 +240,46 @@ def random_history(rnd):
             lines.append("ifn op=call i=%d x=%d" % (i, rnd.randint(0, 9)))
         else:
             lines.append("ifn op=%s i=%d" % (rnd.choice(["bool", "eqnull", "nenull"]), i))
-    for k in range(4):
+    for k in range(IFN_OBJS):
         lines.append("ifn op=call i=%d x=%d" % (k, k))
     return lines
+
+
+def ifn_conversion_matrix():
+    """construction / assignment of one inplace_function from another: (destination, source) over every pair of
+    specialisations that compiles - equal capacity (same type: 0<-1, 3<-4), smaller source capacity (0<-3, 0<-5; a LARGER source
+    capacity is a static_assert failure, not a program) - x source state {empty, holding a closure of 3 types} x destination
+    state {empty, holding} x source category {non-const lvalue, const lvalue, rvalue, const rvalue} x {construction,
+    assignment}; afterwards emptiness of both (operator bool, == nullptr, != nullptr) and a call of both, twice for the
+    destination (the copy has its own call counter)"""
+    out = []
+    for i, j in ((0, 1), (0, 3), (0, 5), (3, 4), (1, 4), (2, 5)):
+        nty = IFN_NTY[IFN_CLS[j]]
+        for sty in (None, 0, 3, nty - 1):
+            for dst_holds in (False, True):
+                for q in range(4):
+                    for op in ("ctor_from", "assign_from"):
+                        h = ["new"]
+                        if sty is not None:
+                            h += ["ifn op=ctor_fn i=%d ty=%d id=%d" % (j, sty, 4 + q), "ifn op=call i=%d x=1" % j]
+                        if dst_holds:
+                            h += ["ifn op=ctor_fn i=%d ty=%d id=%d" % (i, 5, 9)]
+                        h += ["ifn op=%s i=%d j=%d q=%d" % (op, i, j, q)]
+                        for k in (i, j):
+                            h += ["ifn op=bool i=%d" % k, "ifn op=eqnull i=%d" % k, "ifn op=nenull i=%d" % k]
+                        h += ["ifn op=call i=%d x=2" % i, "ifn op=call i=%d x=3" % j, "ifn op=call i=%d x=4" % i]
+                        out.append(h)
+    # self-assignment through the four categories (same object on both sides), every class
+    for i in (0, 3, 5):
+        for sty in (None, 1, 4):
+            for q in range(4):
+                h = ["new"]
+                if sty is not None:
+                    h += ["ifn op=ctor_fn i=%d ty=%d id=%d" % (i, sty, 3), "ifn op=call i=%d x=1" % i]
+                h += ["ifn op=assign_from i=%d j=%d q=%d" % (i, i, q), "ifn op=bool i=%d" % i, "ifn op=eqnull i=%d" % i,
+                      "ifn op=call i=%d x=2" % i]
+                out.append(h)
+    return out
 
 
 def generate(tier, seed):
@@ -377,6 +438,23 @@ def generate(tier, seed):
     for c in range(4):
         for v in (0, 7):
             add("nfc f=memdata c=%d v=%d" % (c, v), "nfc")
+    # ---- make_from_tuple into target types that tell T(x...) from T{x...}: 8 target kinds x arity 0..3 x the four tuple
+    # categories, from a tuple and (arity 2) from a pair; `form=brace`: the list-initialisation itself, compiled directly
+    for tg in range(8):
+        for n in range(4):
+            for base in ([3, 7, 2], [1, 1, 1], [0, 5, 9]):
+                a = base[:n]
+                for q in range(4):
+                    add("mft tg=%d q=%d a=%s" % (tg, q, fmt_list(a)), "mft/paren")
+                    if n == 2:
+                        add("mft tg=%d q=%d a=%s src=pair" % (tg, q, fmt_list(a)), "mft/paren-pair")
+                add("mft tg=%d q=0 a=%s form=brace" % (tg, fmt_list(a)), "mft/brace")
+                if n == 0:
+                    break
+    for _ in range(2000 if thorough else 200):
+        n = rnd.randrange(4)
+        add("mft tg=%d q=%d a=%s%s" % (rnd.randrange(8), rnd.randrange(4), fmt_list([rnd.randint(0, 99) for _ in range(n)]),
+                                       " src=pair" if n == 2 and rnd.random() < 0.3 else ""), "mft/random")
     for q in TYPEQ:
         add("typeq q=%s" % q, "typeq")
     # ---- inplace_function histories: every sequence of `depth` operations of the alphabet
@@ -390,6 +468,18 @@ def generate(tier, seed):
                     "massign i=3 j=3", "swap i=3 j=3", "fswap i=3 j=3", "assign_null i=3"):
             add(["new", "ifn op=ctor_fn i=3 ty=%d id=%d" % (ty, ty + 1), "ifn op=call i=3 x=1", "ifn op=" + op2,
                  "ifn op=call i=3 x=2", "ifn op=call i=0 x=3", "ifn op=call i=1 x=4", "ifn op=call i=2 x=5"], "ifn/small")
+    for h in ifn_conversion_matrix():
+        add(h, "ifn/conv-matrix")
+    # swap / copy / move between the two capacity-16 objects and on the capacity-24 object
+    for ty in range(6):
+        for op2 in ("swap i=3 j=4", "fswap i=4 j=3", "ctor_copy i=4 j=3", "ctor_move i=4 j=3", "assign i=4 j=3", "massign i=4 j=3"):
+            add(["new", "ifn op=ctor_fn i=3 ty=%d id=%d" % (ty, ty + 1), "ifn op=call i=3 x=1", "ifn op=" + op2,
+                 "ifn op=call i=3 x=2", "ifn op=call i=4 x=3", "ifn op=bool i=3", "ifn op=bool i=4"], "ifn/small2")
+    for ty in range(8):
+        for op2 in ("ctor_copy i=1 j=5", "ctor_move i=1 j=5", "assign i=2 j=5", "massign i=0 j=5", "assign i=5 j=5", "massign i=5 j=5",
+                    "swap i=5 j=5", "fswap i=5 j=5", "assign_null i=5"):
+            add(["new", "ifn op=ctor_fn i=5 ty=%d id=%d" % (ty, ty + 1), "ifn op=call i=5 x=1", "ifn op=" + op2,
+                 "ifn op=call i=5 x=2", "ifn op=call i=0 x=3", "ifn op=call i=1 x=4", "ifn op=call i=2 x=5"], "ifn/cap24")
     for ty in range(10):
         for i in range(3):
             add(["new", "ifn op=ctor_fn i=%d ty=%d id=%d" % (i, ty, ty), "ifn op=call i=%d x=1" % i,
@@ -540,7 +630,9 @@ THEOREMS = {
     "nf": [P + "notFn_once", P + "notFnOf_once", P + "notFnOf_data"],
     "nfc": [P + "notFnOf_once", P + "notFnOf_data"],
     "ifn": [P + n for n in ("step_refines", "run_refines", "run_never_errors", "empty_never_calls", "call_once", "fswap_exchanges",
-                            "null_comparison")],
+                            "null_comparison", "copy_equivalent", "move_transfers", "assign_equivalent", "swap_exchanges",
+                            "from_empty_is_empty")],
+    "mft": [P + "makeFromTupleT_eq", P + "listInit_differs", P + "listInit_same", P + "getAll_eq"],
     "new": [P + "run_refines"],
 }
 
